@@ -207,7 +207,7 @@ func mutateForRejection(kind string, op Op, m *RefShard, schema models.IndexSche
 		pts := append([]PointSpec(nil), op.Points...)
 		last := pts[len(pts)-1]
 		d := DocSpec{}
-		for k, v := range last.Doc {
+		for k, v := range detRange(last.Doc) {
 			d[k] = v
 		}
 		if _, ok := schema["n"]; ok {
